@@ -407,3 +407,23 @@ func lemmaVarintRoundTrip(c *varintCodec, n *big.Int, dst *big.Int, version prim
 //@   prop C11
 //@   requires value: n != nil && n != dst
 //@   ensures same: e1 == nil ==> e2 == nil && !wasNull && bigval(dst) == bigval(n)
+
+// ---- C12: decimal and duration ---------------------------------------------------------------------------------
+// decimal: [int] scale, then the unscaled value as a varint (minimal two's complement); NULL unscaled = 0
+//@ func writeDecimal
+//@   prop C12
+//@   ensures scale: len(result) >= 4 && be4(result) == uint32(val.Scale)
+//@   ensures unscaled: val.Unscaled != nil ==> len(result) == 4 + twoslen(bigval(val.Unscaled))
+
+// duration: three zig-zag vints in the order months, days, nanoseconds; each component occupies exactly the bytes the
+// vint specification gives it, and (stated for components that fit one byte) starts where the previous one ends
+//@ spec zz(n int64) uint64 = primitive.encodeZigZag(n)
+//@ func writeDuration
+//@   prop C12
+//@   let m = int64(val.Months)
+//@   let d = int64(val.Days)
+//@   let n = int64(val.Nanos)
+//@   ensures len: len(result) == primitive.LengthOfVint(m) + primitive.LengthOfVint(d) + primitive.LengthOfVint(n)
+//@   ensures months: primitive.specVintSize(zz(m)) == 1 ==> result[0] == uint8(zz(m))
+//@   ensures days: primitive.specVintSize(zz(d)) == 1 ==> result[primitive.LengthOfVint(m)] == uint8(zz(d))
+//@   ensures nanos: primitive.specVintSize(zz(n)) == 1 ==> result[primitive.LengthOfVint(m) + primitive.LengthOfVint(d)] == uint8(zz(n))
